@@ -53,6 +53,21 @@ def kernel_twins(rep, repo, mod):
     rep.ob('C06.kernel', 'kernel call arguments agree', ok, sample={'rule': 'C06.kernel', 'cpu': norm(kc[0]) if kc else None, 'gpu': norm(kg[0]) if kg else None})
     if not ok:
         rep.violate('C06.kernel', mod, gpu, kg[0] if kg else '_wave_eval_gpu(...)', 'the GPU kernel call must pass the same arguments as the CPU call (op, cbuf, c_locs, c_caps, sim, delays, simctl_int[:, sim], seed)', node=gpu)
+    # absolute part: each kernel call evaluates lane L with lane L's control column (not only "the twins agree")
+    from kvstatic.canon import clone, _copyprop
+    for nm, fn, calls in (('level_eval_cpu', cpu, kc), ('wave_eval_gpu', gpu, kg)):
+        if len(calls) != 1:
+            continue
+        fcopy = clone(fn)
+        _copyprop(fcopy)    # a hoisted `ctl = simctl_int[:, x]` is seen through
+        cc = [c for c in find_all(fcopy, ast.Call) if call_name(c) == call_name(calls[0])]
+        args = cc[0].args if len(cc) == 1 else calls[0].args
+        lane = cz(args[4]) if len(args) > 6 else None
+        ok = lane is not None and cz(args[6]) == f'simctl_int[:,{lane}]' and cz(args[5]) == 'delays' and cz(args[7]) == 'seed'
+        rep.ob('C06.kernel', f'{nm}: lane {lane} is evaluated with simctl_int[:, {lane}]', ok)
+        if not ok:
+            rep.violate('C06.kernel', mod, fn, calls[0], f'{nm}: the evaluation of lane `{lane}` must receive that lane\'s control column simctl_int[:, {lane}] '
+                        f'(found {cz(args[6]) if len(args) > 6 else None}): otherwise every lane uses one lane\'s delay dataset selection', node=calls[0])
     w, g = mod.func('WaveSim.c_prop'), mod.func('WaveSimCuda.c_prop')
     for f in (w, g):
         s0 = [cz(s) for s in body_no_doc(f)]
@@ -60,6 +75,18 @@ def kernel_twins(rep, repo, mod):
         rep.ob('C06.kernel', f'{f._qualname}: sims = min(sims or self.sims, self.sims)', ok)
         if not ok:
             rep.violate('C06.kernel', mod, f, 'sims = min(sims or self.sims, self.sims)', f'{f._qualname}: the number of propagated lanes must be min(sims or self.sims, self.sims)', node=f)
+    for f in (w, g):   # what reaches the kernels is what the caller passed: no parameter is re-bound on the way (only the lane clamp)
+        params = {a.arg for a in f.args.args} - {'self'}
+        for st in find_all(f, (ast.Assign, ast.AugAssign, ast.AnnAssign, ast.NamedExpr)):
+            tg = st.targets if isinstance(st, ast.Assign) else [st.target]
+            for t in tg:
+                for n in ast.walk(t):
+                    if isinstance(n, ast.Name) and isinstance(n.ctx, ast.Store) and n.id in params:
+                        ok = cz(st) == 'sims=min(simsorself.sims,self.sims)'
+                        rep.ob('C06.kernel', f'{f._qualname}: parameter {n.id} re-bound by {cz(st)[:60]}', ok)
+                        if not ok:
+                            rep.violate('C06.kernel', mod, f, st, f'{f._qualname}: parameter `{n.id}` is re-bound before it reaches the kernel ({norm(st)[:80]}): '
+                                        f'a caller-selected value (e.g. dataset index seed=0) is replaced', node=st)
     cw = [c for c in find_all(w, ast.Call) if call_name(c) == 'level_eval_cpu']
     cg = [c for c in find_all(g, ast.Call) if isinstance(c.func, ast.Subscript) and cz(c.func.value) == 'wave_eval_gpu']
     want = ['self.ops', 'op_start', 'op_stop', 'self.c', 'self.c_locs', 'self.c_caps', 'self.abuf', '0', 'sims', 'self.delays', 'self.simctl_int', 'seed']
